@@ -119,7 +119,7 @@ pub fn session(rng: &mut Rng) -> Generated {
                     &format!(
                         "{def}
                          (define n{t} 0)
-                         (list (begin (display 'left{t}) (note 'l)) (call/cc (lambda (c) {store} 'first)) (begin (display 'right{t}) (note 'r)))
+                         (list (begin (display 'left{t}) (note 'l) (list 'fresh n{t} (c-build 3))) (call/cc (lambda (c) {store} 'first)) (begin (display 'right{t}) (note 'r)))
                          (if (< n{t} {times}) (begin (set! n{t} (+ n{t} 1)) ({fetch} (list 'again n{t}))) 'stop)
                          (if (< n{t} {times}) (begin (set! n{t} (+ n{t} 1)) ({fetch} (list 'again n{t}))) 'stop)
                          (reverse trail)",
